@@ -2,7 +2,7 @@
 Line-protocol driver for the C04 models (dense layers, activations, two-layer
 concatenation, normalizer/softmax rows, arg-max).  Sections separated by `|`.
 -/
-import SharkVerif.Model.Models2
+import SharkVerif.Model.Models3
 import Driver.Util
 open SharkVerif SharkVerif.Models SharkVerif.Scalar
 
@@ -20,6 +20,50 @@ def matList {α} (rows cols : Nat) (f : Nat → Nat → α) : List (List α) :=
 def mkDense {α} [Num α] (act : Act) (hasB : Bool) (nIn nOut : Nat) (p : List α) : Dense α :=
   let m : Dense α := { nIn := nIn, nOut := nOut, W := fun _ _ => 0, hasB := hasB, b := fun _ => 0, act := act }
   m.setParams p
+
+/-- layer specs of a (possibly nested) `ConcatenatedModel` → `Net`; returns the remaining specs, the output size,
+the unused parameters and whether the sequence was closed by `]` -/
+partial def parseSeq {α} [Num α] (specs : List String) (nIn : Nat) (p : List α) :
+    Option (Net α × List String × Nat × List α × Bool) :=
+  match specs with
+  | [] => some (.nil, [], nIn, p, false)
+  | sp :: rest =>
+    match sp.splitOn ":" with
+    | ["]"] => some (.nil, rest, nIn, p, true)
+    | ["[", o] =>
+      match parseSeq rest nIn p with
+      | some (.nil, _, _, _, _) => none                     -- an empty group has no input shape
+      | some (inner, rest1, n1, p1, true) =>
+        match parseSeq rest1 n1 p1 with
+        | some (tail, rest2, n2, p2, cl) => some (.cons inner (o == "1") tail, rest2, n2, p2, cl)
+        | none => none
+      | _ => none
+    | ["d", act, hb, nOut, opt] =>
+      match parseAct act, hb.toNat?, nOut.toNat?, opt.toNat? with
+      | some act, some hb, some nOut, some opt =>
+        let np := nOut * nIn + (if hb == 1 then nOut else 0)
+        if p.length < np then none else
+        let m := mkDense act (hb == 1) nIn nOut (p.take np)
+        match parseSeq rest nOut (p.drop np) with
+        | some (tail, rest2, n2, p2, cl) => some (.cons (.leaf (.dense m)) (opt == 1) tail, rest2, n2, p2, cl)
+        | none => none
+      | _, _, _, _ => none
+    | ["n", act, opt] =>
+      match parseAct act, opt.toNat? with
+      | some act, some opt =>
+        match parseSeq rest nIn p with
+        | some (tail, rest2, n2, p2, cl) => some (.cons (.leaf (.neuron act nIn)) (opt == 1) tail, rest2, n2, p2, cl)
+        | none => none
+      | _, _ => none
+    | ["r", kind, opt] =>
+      match opt.toNat? with
+      | some opt =>
+        match parseSeq rest nIn p with
+        | some (tail, rest2, n2, p2, cl) =>
+          some (.cons (.leaf (.rowact (if kind == "softmax" then .softmax else .normalizer) nIn)) (opt == 1) tail, rest2, n2, p2, cl)
+        | none => none
+      | none => none
+    | _ => none
 
 def runOp {α} [Num α] (secs : List (List String)) : String :=
   let nums : List String → Option (List α) := fun ts => ts.mapM parseDy
@@ -68,44 +112,32 @@ def runOp {α} [Num α] (secs : List (List String)) : String :=
         let der := matList B n fun i k => softmaxDeriv n (out i) (D i) k
         s!"E={showMat (matList B n out)} D={showMat der}"
     | _, _, _, _ => "bad-op"
-  -- chain B nIn | layer specs | params (optimised layers, in order) | X | C
-  --   layer spec: d:<act>:<hasB>:<nOut>:<opt> | n:<act>:<opt> | r:<softmax|normalizer>:<opt>
+  -- chain B nIn | layer specs | params (ALL dense layers, in order) | X | C
+  --   layer spec: d:<act>:<hasB>:<nOut>:<opt> | n:<act>:<opt> | r:<softmax|normalizer>:<opt> | [:<opt> … ]  (nested model)
   | [["chain", b, nIn], specs, ps, xs, cs] =>
     match b.toNat?, nIn.toNat?, nums ps, nums xs, nums cs with
     | some B, some nIn, some p, some x, some c =>
-      -- build the layers, consuming parameters of optimised dense layers from `p`; non-optimised dense
-      -- layers take their parameters from the same stream too (the harness sets them before freezing)
-      let rec build (specs : List String) (nIn : Nat) (p : List α) (acc : Chain α) : Option (Chain α × Nat) :=
-        match specs with
-        | [] => some (acc.reverse, nIn)
-        | sp :: rest =>
-          match sp.splitOn ":" with
-          | ["d", act, hb, nOut, opt] =>
-            match parseAct act, hb.toNat?, nOut.toNat?, opt.toNat? with
-            | some act, some hb, some nOut, some opt =>
-              let np := nOut * nIn + (if hb == 1 then nOut else 0)
-              let m := mkDense act (hb == 1) nIn nOut (p.take np)
-              build rest nOut (p.drop np) ((Layer.dense m, opt == 1) :: acc)
-            | _, _, _, _ => none
-          | ["n", act, opt] =>
-            match parseAct act, opt.toNat? with
-            | some act, some opt => build rest nIn p ((Layer.neuron act nIn, opt == 1) :: acc)
-            | _, _ => none
-          | ["r", kind, opt] =>
-            match opt.toNat? with
-            | some opt => build rest nIn p ((Layer.rowact (if kind == "softmax" then .softmax else .normalizer) nIn, opt == 1) :: acc)
-            | none => none
-          | _ => none
-      match build specs nIn p [] with
-      | some (ch, nOut) =>
+      match parseSeq specs nIn p with
+      | some (net, [], nOut, [], false) =>
         let X := mat x nIn
         let C := mat c nOut
-        let e := matList B nOut (ch.evalB Num.tanh Num.exp X)
-        let (gp, gx) := ch.backward Num.tanh Num.exp B X C
+        let e := matList B nOut (net.evalB Num.tanh Num.exp X)
+        let (gp, gx) := net.backward Num.tanh Num.exp B X C
         let gxl := matList B nIn gx
-        s!"NP={ch.params.length} PV={showVec ch.params} E={showMat e} GP={showVec gp} GX={showMat gxl} GP2={showVec gp} GX2={showMat gxl}"
-      | none => "bad-op"
+        s!"NP={net.numberOfParameters} PV={showVec net.params} E={showMat e} GP={showVec gp} GX={showMat gxl} GP2={showVec gp} GX2={showMat gxl}"
+      | _ => "bad-op"
     | _, _, _, _, _ => "bad-op"
+  -- sparse act hasB nIn nOut B | params | X | C     (LinearModel on sparse inputs = the dense model)
+  | [["sparse", act, hb, nIn, nOut, b], ps, xs, cs] =>
+    match parseAct act, hb.toNat?, nIn.toNat?, nOut.toNat?, b.toNat?, nums ps, nums xs, nums cs with
+    | some act, some hb, some nIn, some nOut, some B, some p, some x, some c =>
+      let m := mkDense act (hb == 1) nIn nOut p
+      let X := mat x nIn
+      let C := mat c nOut
+      let single := matList B nOut fun i k => m.eval Num.tanh (X i) k
+      let out := m.evalB Num.tanh X
+      s!"NP={m.numberOfParameters} PV={showVec m.params} S={showMat single} E={showMat (matList B nOut out)} GP={showVec (m.gradParams B X out C)}"
+    | _, _, _, _, _, _, _, _ => "bad-op"
   | [["argmax", n], zs] =>
     match n.toNat?, nums zs with
     | some n, some z => let a := z.toArray; s!"R={argmax n fun k => a.getD k 0}"
@@ -118,17 +150,38 @@ class Num2 (α : Type) extends Num α where
   floor : α → α
   toNat : α → Nat
   logPi : α
+  /-- the constants 1e-100 and 1e100 of `Centroids::membershipKernel` -/
+  tiny : α
+  huge : α
 
 instance : Num2 Rat where
   floor q := ((q.floor : Int) : Rat)
   toNat q := q.floor.toNat
   logPi := 0          -- not used in rat mode
+  tiny := 0
+  huge := 0
 instance : Num2 Float where
   floor := Float.floor
   toNat x := x.toUInt64.toNat
   logPi := Float.log (Float.ofBits 0x400921FB54442D18)   -- boost::math::constants::pi<double>()
+  tiny := 1e-100
+  huge := 1e100
 
 def showNats (l : List Nat) : String := ",".intercalate (l.map toString)
+
+/-- tree build script: `I:<node>:<attribute>:<threshold>` / `L:<node>:<label>` applied to `createRoot()` -/
+def buildTree {α} [Num α] (script : List String) : Option (Tree α) :=
+  script.foldlM (fun (t : Tree α) sp =>
+    match sp.splitOn ":" with
+    | ["I", id, attr, thr] =>
+      match id.toNat?, attr.toNat?, (parseDy thr : Option α) with
+      | some id, some attr, some thr => if id < t.nodes.length then some (t.internal id attr thr) else none
+      | _, _, _ => none
+    | ["L", id, lab] =>
+      match id.toNat?, lab.toNat? with
+      | some id, some lab => if id < t.nodes.length then some (t.leaf id lab) else none
+      | _, _ => none
+    | _ => none) Tree.root
 
 def runOp2 {α} [Num2 α] (secs : List (List String)) : String :=
   let nums : List String → Option (List α) := fun ts => ts.mapM parseDy
@@ -263,6 +316,77 @@ def runOp2 {α} [Num2 α] (secs : List (List String)) : String :=
       let gp := (List.range m.numberOfParameters).map (m.gradParam Num2.toNat B X C)
       s!"NP={m.numberOfParameters} PV={showVec m.params} S={showMat e} E={showMat e} GP={showVec gp}"
     | _, _, _, _, _ => "bad-op"
+  -- kclass nIn nBasis nOut hasB B | basis | params | X
+  | [("kclass" :: hd), bs, ps, xs] =>
+    match nats hd, nums bs, nums ps, nums xs with
+    | some [nIn, nBasis, nOut, hb, B], some bas, some p, some x =>
+      if bas.length != nBasis * nIn || x.length != B * nIn || p.length != nBasis * nOut + (if hb == 1 then nOut else 0) then "bad-op" else
+      let m : KExp α := ({ nBasis := nBasis, nOut := nOut, basis := mat bas nIn, alpha := fun _ _ => 0, hasB := hb == 1, b := fun _ => 0 } : KExp α).setParams p
+      let X := mat x nIn
+      let r := (List.range B).map fun i => classifyRow nOut false (fun _ => 0) (m.evalB (kLinear nIn) X i)
+      s!"NP={m.numberOfParameters} PV={showVec m.params} R={showNats r}"
+    | _, _, _, _ => "bad-op"
+  -- ovo nIn classes B | params | X
+  | [("ovo" :: hd), ps, xs] =>
+    match nats hd, nums ps, nums xs with
+    | some [nIn, classes, B], some p, some x =>
+      let nb := classes * (classes - 1) / 2
+      if classes < 1 || p.length != nb * (nIn + 1) || x.length != B * nIn then "bad-op" else
+      let bins := ((List.range nb).map fun q => mkDense .linear true nIn 1 ((p.drop (q * (nIn + 1))).take (nIn + 1))).toArray
+      let X := mat x nIn
+      let r := (List.range B).map fun i =>
+        ovoDecide classes fun q => match bins[q]? with
+          | some m => classifyRow 1 false (fun _ => 0) (m.evalB Num.tanh X i)
+          | none => 0
+      -- parameter vector: the vectors of the binary classifiers in order (the slicing of a chain of optimised layers)
+      let ch : Chain α := bins.toList.map fun m => (Layer.dense m, true)
+      s!"NP={ch.numberOfParameters} PV={showVec ch.params} R={showNats r}"
+    | _, _, _ => "bad-op"
+  -- cart nIn nCls B | script | X
+  | [("cart" :: hd), script, xs] =>
+    match nats hd, nums xs with
+    | some [nIn, _, B], some x =>
+      match buildTree (α := α) script with
+      | some t => if x.length != B * nIn then "bad-op" else
+        let X := mat x nIn
+        s!"NP=0 R={showNats ((List.range B).map (t.evalB X))}"
+      | none => "bad-op"
+    | _, _ => "bad-op"
+  -- cluster nIn nC B centroidBatch | centroids | X
+  | [("cluster" :: hd), cs, xs] =>
+    match nats hd, nums cs, nums xs with
+    | some [nIn, nC, B, _], some cen, some x =>
+      if cen.length != nC * nIn || x.length != B * nIn || nC == 0 then "bad-op" else
+      -- the centroid matrix is packed row by row, like the weight matrix of a dense layer without offset
+      let cm := mkDense .linear false nIn nC cen
+      let Cn := cm.W
+      let X := mat x nIn
+      let soft := fun i k => softMembership Num.sqrt Num2.tiny Num2.huge nIn nC Cn (X i) k
+      let e := matList B nC soft
+      let r := (List.range B).map fun i => hardMembership Num.sqrt Num2.tiny Num2.huge nIn nC Cn (X i)
+      s!"NP={cm.numberOfParameters} PV={showVec cm.params} TS={showMat e} TE={showMat e} R={showNats r}"
+    | _, _, _ => "bad-op"
+  -- dropout p n B seed | X | C     (random: checked by the oracle of the harness only)
+  | [["dropout", _, n, b, _], xs, cs] =>
+    match n.toNat?, b.toNat?, nums xs, nums cs with
+    | some n, some B, some x, some c => if x.length != B * n || c.length != B * n then "bad-op" else "NP=0 DROPOUT"
+    | _, _, _, _ => "bad-op"
+  -- rf nIn nCls B | weights | script_1 | … | script_M | X
+  | ("rf" :: hd) :: wsec :: more =>
+    match nats hd, nums wsec, more.getLast?.bind nums with
+    | some [nIn, nCls, B], some ws, some x =>
+      let scripts := more.dropLast
+      match scripts.mapM (buildTree (α := α)) with
+      | some trees =>
+        if x.length != B * nIn || ws.length != trees.length || ws.isEmpty then "bad-op" else
+        let X := mat x nIn
+        let nC := if nCls == 1 then 2 else nCls
+        let resp := fun i => trees.map fun t => t.evalB X i
+        let v := matList B nC fun i k => ensembleVote ws (resp i) k
+        let r := (List.range B).map fun i => classifyRow nC false (fun _ => 0) (ensembleVote ws (resp i))
+        s!"NP=0 V={showMat v} R={showNats r}"
+      | none => "bad-op"
+    | _, _, _ => "bad-op"
   | _ => "bad-op"
 
 partial def loop (h : IO.FS.Stream) (out : IO.FS.Stream) (float : Bool) : IO Unit := do
